@@ -223,6 +223,9 @@ class Packer(object):
 def boundary(rng, kmax=200):
     """2^k - 2, 2^k - 1, 2^k, 2^k + 1 and random k-bit values, mostly for large k"""
     k = rng.choice([rng.randrange(1, 12), rng.randrange(30, 70), rng.randrange(40, kmax + 1), rng.randrange(40, kmax + 1)])
+    if kmax >= 200 and rng.random() < 0.08:
+        # VC-2 puts no bound on exp-Golomb magnitudes: far beyond any machine word or "reasonable" cap
+        k = rng.choice([255, 256, 257, 511, 512, 513, 514, 640, 1023, 1024, 1025, 2049, 4100])
     return max(0, rng.choice([(1 << k) - 2, (1 << k) - 1, 1 << k, (1 << k) + 1, rng.randrange(1 << (k - 1), 1 << k)]))
 
 
